@@ -103,3 +103,87 @@ package db
 //@   at-call Put assert[restores-current-value] pr.db.has[bytesval(key)] && bytesval(arg2) == pr.db.val[bytesval(key)] && bytesval(arg1) == bytesval(key)
 //@   at-call Delete assert[restores-absence] !pr.db.has[bytesval(key)] && bytesval(arg1) == bytesval(key)
 //@   ensures[exactly-one-op] pr.rb.opCount == old(pr.rb.opCount) + 1
+
+// ======================================================================================================================
+// Managers. ldbManager: abstract state = the identifier of the current frontier commit of the underlying leveldb, plus the
+// number of cached undo overlays.
+//@ model ldbManager frontierHash arr
+//@ model ldbManager frontierHeight int
+//@ model github.com/hashicorp/golang-lru:Cache size int     // number of cached entries
+//@ model DB frontierHash arr     // the frontier pointer stored in this (view of the) store
+//@ model DB frontierHeight int
+
+//@ func github.com/hashicorp/golang-lru:Cache.Purge(c)
+//@   ensures c.size == 0
+//@   modifies c.size
+//@ func github.com/hashicorp/golang-lru:Cache.Add(c, key, value)
+//@   modifies c.size
+//@ func github.com/hashicorp/golang-lru:Cache.Get(c, key)
+//@   modifies nothing
+
+//@ func GetFrontierIdentifier(db)
+//@   trusted
+//@   ensures result.Hash == db.frontierHash && result.Height == db.frontierHeight
+//@   modifies nothing
+
+// a view at X carries X as its frontier pointer; the current frontier view carries the manager's frontier
+//@ func ldbManager.Get(m, identifier)
+//@   trusted
+//@   ensures result != nil ==> result.frontierHash == identifier.Hash && result.frontierHeight == identifier.Height
+//@   modifies m.l1Cache.size, m.l2Cache.size
+//@ func ldbManager.Frontier(m)
+//@   trusted
+//@   ensures result != nil ==> result.frontierHash == m.frontierHash && result.frontierHeight == m.frontierHeight
+//@   modifies nothing
+
+// Property C06: rolling back a commit leaves no cached undo overlay behind (they were computed against the removed commit).
+//@ func ldbManager.Pop(m)
+//@   requires m != nil && m.l1Cache != nil && m.l2Cache != nil
+//@   ensures[no-overlay-survives-a-rollback] result == nil ==> m.l1Cache.size == 0 && m.l2Cache.size == 0
+
+// Property C07: "a commit is accepted only on top of the current frontier - any other parent is refused without changing
+// the store": every write of Add happens only when the transaction's parent is the manager's current frontier.
+//@ func ldbManager.Add(m, transaction)
+//@   requires m != nil
+//@   at-call ApplyPatch assert[parent-is-current-frontier] previous.Hash == m.frontierHash && previous.Height == m.frontierHeight
+
+//@ func Transaction.GetCommits(self)
+//@   ensures len(result) > 0
+//@   modifies nothing
+//@ func Transaction.StealChanges(self)
+//@   modifies nothing
+//@ func Commit.Previous(self)
+//@   modifies nothing
+//@ func Commit.Identifier(self)
+//@   modifies nothing
+//@ func Commit.Serialize(self)
+//@   modifies nothing
+
+// the in-memory manager of unconfirmed account chains: a commit is applied only on top of the manager's frontier
+//@ func memdbManager.Add(m, transaction)
+//@   requires m != nil
+//@   at-call Apply assert[parent-is-frontier] previous == m.frontierIdentifier
+//@   loop 1
+//@     invariant previous == m.frontierIdentifier
+
+//@ func DB.Snapshot(self)
+//@   ensures result != nil && fresh(result)
+//@   modifies nothing
+//@ func DB.Apply(self, patch)
+//@   modifies self.has, self.val, self.frontierHash, self.frontierHeight
+//@ func DB.Changes(self)
+//@   modifies nothing
+//@ model PatchReplayer opCount int
+//@ func Patch.Replay(self, replayer)
+//@   modifies replayer.opCount, MF:common/db.Patch.opCount
+//@ func NewMemDB()
+//@   trusted
+//@   ensures result != nil && fresh(result)
+//@   modifies nothing
+//@ func SetFrontier(db, identifier, data)
+//@   trusted
+//@   modifies db.has, db.val, db.frontierHash, db.frontierHeight
+
+// Manager.Pop as seen by the momentum pool: the pool's frontier store changes
+//@ func Manager.Pop(self)
+//@   modifies MF:chain.momentumPool.frontierStore, MF:chain/store.Momentum.idHeight, MF:chain/store.Momentum.idHash
